@@ -1,4 +1,5 @@
 import CssVerif.Model.SheetValid
+import CssVerif.Model.SheetRaw
 /-!
 # C09 — declaration blocks and properties as objects
 
@@ -194,6 +195,12 @@ inductive DOp where
   | removeProp (path : List Nat) (name : Cps)
   /-- `rule.style.setProperty(p)` where `p` is the `i`-th Property object of the block of the rule at `src` -/
   | sharePropObj (path src : List Nat) (i : Nat)
+  /-- `del sheet.cssRules[i]` (`path = []`) / `del rule.cssRules[i]` (`Model/SheetRaw.lean`) -/
+  | rawDelete (path : List Nat) (i : Int)
+  /-- `sheet.cssRules.insert(i, rule)` -/
+  | rawInsert (s : Spec) (i : Int)
+  /-- `sheet.insertRule(rule, index)` with the rule object standing at `path` -/
+  | reinsert (path : List Nat) (index : Option Int)
 
 def dstep (ds : DSt) : DOp → DSt × Outcome
   | .sheet op =>
@@ -259,6 +266,12 @@ def dstep (ds : DSt) : DOp → DSt × Outcome
         else (sharePropAt ds rid p, .none)                                     -- `:688-693`
     | _, _ => (ds, .badOp)
 
+  | .rawDelete path i =>
+    let r := if path.isEmpty then rawDelete ds.st i else nRawDelete ds.st path i
+    ({ ds with st := r.1 }, r.2)
+  | .rawInsert s i => let r := rawInsert ds.st s i; ({ ds with st := r.1 }, r.2)
+  | .reinsert path index => let r := reinsert ds.st path index; ({ ds with st := r.1 }, r.2)
+
 def drun (ds : DSt) : List DOp → DSt
   | [] => ds
   | op :: ops => drun (dstep ds op).1 ops
@@ -285,11 +298,16 @@ structure DValid (ds : DSt) : Prop where
 
 /-- operations that hand in objects: rule objects well nested (`OpOK`); a declaration block handed to a rule is
 not the block of another rule (`shareStyle` hands in a contained object: see `share_style_breaks_links`), a Property
-object handed to a block is not held by a block (`sharePropObj`: see `share_property_breaks_links`) -/
+object handed to a block is not held by a block (`sharePropObj`: see `share_property_breaks_links`), a rule object
+handed in is not contained (`reinsert`), and the rule lists are edited through the DOM methods (`rawDelete`,
+`rawInsert`) -/
 def DOpOK : DOp → Prop
   | .sheet op => OpOK op
   | .shareStyle path src => path = src
   | .sharePropObj _ _ _ => False
+  | .rawDelete _ _ => False
+  | .rawInsert _ _ => False
+  | .reinsert _ _ => False
   | _ => True
 
 end CssVerif.SheetEdit
